@@ -30,7 +30,8 @@
 (*   CurIsSentRequest, SetpointsSumToRequestMinusExcess, ResultsReferToSent,  *)
 (*   SentIsSum / SentInBounds (C11, on the composed behaviours), PD!NoOverlap *)
 (*   / PD!PendingIsLatest (C14, on the composed behaviours), LastSentIsTarget,*)
-(*   FinalCommandedIsTarget, NotStuck; liveness EventuallyQuiescent.          *)
+(*   InForceWithinBounds, FinalCommandedIsTarget, NotStuck; liveness          *)
+(*   EventuallyQuiescent.                                                     *)
 (* The same clauses are evaluated on recorded executions of the real actors   *)
 (* in PowerPathTrace.                                                         *)
 (*                                                                            *)
@@ -73,8 +74,8 @@ Clamp3(x, lo, hi) == Max2(lo, Min2(x, hi))
 
 ----------------------------------------------------------------------------
 (* the abstract component manager *)
-NoCur == [k |-> 0, p |-> 0, bud |-> 0, called |-> {}, s |-> [c \in Inv |-> 0], out |-> [c \in Inv |-> "none"], fin |-> FALSE]
-NoCmd == [k |-> 0, tot |-> 0, okp |-> 0, fp |-> 0, ex |-> 0]
+NoCur == [k |-> 0, p |-> 0, bud |-> 0, called |-> {}, s |-> [c \in Inv |-> 0], out |-> [c \in Inv |-> "none"], fin |-> FALSE, lost |-> FALSE]
+NoCmd == [k |-> 0, tot |-> 0, okp |-> 0, fp |-> 0, ex |-> 0, lost |-> FALSE]
 CompOf(s) == [lo |-> s.lo * Unit, hi |-> s.hi * Unit]
 SysOfComp == [has |-> TRUE, lo |-> comp.lo \div Unit, hi |-> comp.hi \div Unit, xlo |-> 0, xhi |-> 0]
 
@@ -87,13 +88,27 @@ Failed(c) == {i \in c.called : c.out[i] \in {"err", "to"}}
 Oks(c) == {i \in c.called : c.out[i] = "ok"}
 AllEnded(c) == c.called = Inv /\ Pending(c) = {}
 
+\* Named deviation (cause predicate): the battery distribution algorithm returned set-points and a
+\* remaining power that do NOT add up to the request (the known C01 conservation defects: zero-headroom
+\* group with exclusion bound, two inverters behind one battery, ...).  The abstract manager never does
+\* that; the trace specification installs it from the recorded DistributionResult (Dist below), so that
+\* a conservation failure of the composed path is attributed to C01 and every other failure still fires.
+Dev_DistributionLostPower == cur.lost
+\* BatteryDistributionAlgorithm.distribute_power returned (set-points s, remaining r) for the request in
+\* progress: either it is what the abstract manager does, or it lost power
+Dist(s, r) ==
+    /\ cur.k # 0 /\ cur.called = {} /\ ~cur.fin
+    /\ IF Near(SumTo(s, Len(s)) + r, cur.p)
+       THEN Near(cur.p - r, cur.bud) /\ UNCHANGED cur
+       ELSE cur' = [cur EXCEPT !.bud = cur.p - r, !.lost = TRUE]
+
 \* the model's canonical split (any split with the right sum is allowed, see Call)
 SplitOf(c, i) == IF i < NInv THEN c.bud \div NInv ELSE c.bud - (NInv - 1) * (c.bud \div NInv)
 
 \* set_power(inverter i, p) reaches the API: the LAST call of a distribution makes the sum right
 Call(i, p) ==
     /\ cur.k # 0 /\ ~cur.fin /\ i \in Inv \ cur.called
-    /\ (cur.called \cup {i} = Inv) => Near(SumOn(cur.s, cur.called) + p, cur.bud)
+    /\ (cur.called \cup {i} = Inv) => (Near(SumOn(cur.s, cur.called) + p, cur.bud) \/ Dev_DistributionLostPower)
     /\ cur' = [cur EXCEPT !.called = @ \cup {i}, !.s[i] = p, !.out[i] = "pending"]
 
 \* the API answers call i (o = "ok" | "err"), or the call is cancelled at the timeout ("to")
@@ -135,6 +150,8 @@ PComp(c) == /\ comp' = c /\ UNCHANGED <<pmv, pdv, reqs, cur, rq, cmd>>
 PRecv == PD!ActorRecv /\ UNCHANGED <<pmv, gluev>>
 PEnter == /\ PD!Enter(1) /\ cur' = StartCur(infl[1].p)
           /\ UNCHANGED <<pmv, reqs, comp, rq, cmd, cnt>>
+PDist(s, r) == /\ infl[1].st = "running" /\ Dist(s, r)
+               /\ UNCHANGED <<pmv, pdv, reqs, comp, rq, cmd, cnt>>
 PCall(i, p) == /\ infl[1].st = "running" /\ Call(i, p)
                /\ UNCHANGED <<pmv, pdv, reqs, comp, rq, cmd, cnt>>
 PReply(i, o) == Reply(i, o) /\ UNCHANGED <<pmv, pdv, reqs, comp, rq, cmd, cnt>>
@@ -143,7 +160,7 @@ PFinish == /\ cur.k # 0 /\ ~cur.fin /\ AllEnded(cur)
            /\ PD!Resolve(1, "ok")
            /\ rq' = Append(rq, ResultOf(cur))
            /\ cmd' = [k |-> cur.k, tot |-> SumOn(cur.s, Inv), okp |-> SumOn(cur.s, Oks(cur)),
-                      fp |-> SumOn(cur.s, Failed(cur)), ex |-> Excess(cur)]
+                      fp |-> SumOn(cur.s, Failed(cur)), ex |-> Excess(cur), lost |-> cur.lost]
            /\ cur' = [cur EXCEPT !.fin = TRUE]
            /\ UNCHANGED <<pmv, reqs, comp, cnt>>
 PExit == /\ cur.fin /\ PD!Exit(1) /\ cur' = NoCur
@@ -154,18 +171,19 @@ PCallback == PD!Callback(1) /\ UNCHANGED <<pmv, gluev>>
 (* model: initial state, history, Next *)
 CompSet == {CompOf(s) : s \in SysSet}
 
-PPInit ==
+PPInitWith(c) ==
     /\ R = EmptyGroup /\ O = EmptyGroup /\ sys = NoSysRec      \* _add_system_bounds_tracker: no bounds yet
     /\ clock = 0 /\ lastPartial = FALSE
     /\ last = [Idle EXCEPT !.kind = "none"] /\ rep = [r |-> None, o |-> None]
-    /\ h = <<>>
+    /\ h = <<[a |-> "init", lo |-> c.lo \div Unit, hi |-> c.hi \div Unit]>>    \* the initial choice is part of the behaviour
     /\ PD!Init
-    /\ reqs = <<>> /\ comp \in CompSet /\ cur = NoCur /\ rq = <<>> /\ cmd = NoCmd
+    /\ reqs = <<>> /\ comp = c /\ cur = NoCur /\ rq = <<>> /\ cmd = NoCmd
     /\ cnt = [prop |-> 0, comp |-> 0, to |-> 0]
+PPInit == \E c \in CompSet : PPInitWith(c)
 
 Gen == Mode = "mc" \/ Guard
 Keep == h' = h
-LogI == h' = (IF Mode \in {"history", "sim"} THEN Append(h, [a |-> "int"]) ELSE h)
+LogI(n) == h' = (IF Mode \in {"history", "sim"} THEN Append(h, [a |-> "int", n |-> n]) ELSE h)
 Pick(S) == IF Mode = "sim" THEN {RandomElement(S)} ELSE S
 
 \* environment: the actors
@@ -193,18 +211,23 @@ TimeoutStep == /\ Gen /\ cnt.to < MaxTimeout
                /\ EmitRule
 \* internal steps of the two actors
 GotStep == Gen /\ PGot /\ EmitRule
-RecvStep == Gen /\ PRecv /\ LogI /\ EmitRule
-EnterStep == Gen /\ PEnter /\ LogI /\ EmitRule
+RecvStep == Gen /\ PRecv /\ LogI("recv") /\ EmitRule
+EnterStep == Gen /\ PEnter /\ LogI("enter") /\ EmitRule
 CallStep == /\ Gen /\ cur.k # 0
             /\ LET i == CHOOSE j \in Inv \ cur.called : \A m \in Inv \ cur.called : j <= m
                IN cur.called # Inv /\ PCall(i, SplitOf(cur, i))
-            /\ LogI /\ EmitRule
-FinishStep == Gen /\ PFinish /\ LogI /\ EmitRule
-ExitStep == Gen /\ PExit /\ LogI /\ EmitRule
-CallbackStep == Gen /\ PCallback /\ LogI /\ EmitRule
+            /\ LogI("call") /\ EmitRule
+FinishStep == Gen /\ PFinish /\ LogI("finish") /\ EmitRule
+ExitStep == Gen /\ PExit /\ LogI("exit") /\ EmitRule
+CallbackStep == Gen /\ PCallback /\ LogI("callback") /\ EmitRule
 
 PPNext == RegPStep \/ OpPStep \/ CompStep \/ PoolStep \/ ReplyStep \/ TimeoutStep \/ GotStep
           \/ RecvStep \/ EnterStep \/ CallStep \/ FinishStep \/ ExitStep \/ CallbackStep
+
+\* simulation: a behaviour is emitted when it reaches the depth bound or when nothing more can happen
+PPDone == /\ chan = <<>> /\ rq = <<>> /\ infl[1].st = "none" /\ pend[1] = 0 /\ cur.k = 0 /\ sys = SysOfComp
+          /\ cnt.prop = MaxProp /\ (cnt.comp = MaxComp \/ CompSet \ {comp} = {})
+PPSimEmit == (Mode = "sim" /\ (Len(h) = MaxDepth \/ PPDone)) => Emit(h)
 
 PPSpec == PPInit /\ [][PPNext]_ppvars
 \* the API answers or the timeout strikes; the pool streams; the actors' internal steps run
@@ -224,14 +247,17 @@ CurIsSentRequest ==
                  /\ cur.p = reqs[cur.k] * Unit
 \* the set-points of one distribution add up to the request minus the reported excess
 SetpointsSumToRequestMinusExcess ==
-    /\ (cur.k # 0 /\ cur.called = Inv) => Near(SumOn(cur.s, Inv) + Excess(cur), reqs[cur.k] * Unit)
-    /\ cmd.k # 0 => Near(cmd.tot + cmd.ex, reqs[cmd.k] * Unit)
+    /\ (cur.k # 0 /\ cur.called = Inv) => (Near(SumOn(cur.s, Inv) + Excess(cur), reqs[cur.k] * Unit) \/ Dev_DistributionLostPower)
+    /\ cmd.k # 0 => (Near(cmd.tot + cmd.ex, reqs[cmd.k] * Unit) \/ cmd.lost)
 \* every Result on its way to the manager refers to a request the manager sent and accounts for it
 ResultsReferToSent ==
     \A j \in DOMAIN rq : /\ rq[j].k \in 1..nsent
                          /\ Near(rq[j].sp + rq[j].fp + rq[j].ex, reqs[rq[j].k] * Unit)
 \* the latest Request is the sum of the targets the actors were told last
 LastSentIsTarget == nsent > 0 => reqs[nsent] = Val(rep.r) + Val(rep.o)
+\* ... and the Request in force lies within the latest bounds the pool streamed (after a bounds update the
+\* manager recomputes both targets; whenever their sum changes a new Request replaces the one in force)
+InForceWithinBounds == (nsent > 0 /\ sys.has) => (sys.lo <= reqs[nsent] /\ reqs[nsent] <= sys.hi)
 \* requests are numbered in the order they are sent
 ReqsAreSends == Len(reqs) = nsent /\ cmd.k <= nsent /\ lastEntered[1] <= nsent /\ nsent < MaxReqs
 
@@ -243,8 +269,8 @@ FinalCommandedIsTarget ==
     (PPQuiescent /\ nsent > 0) =>
         LET tgt == (Val(rep.r) + Val(rep.o)) * Unit IN
         /\ cmd.k = nsent /\ lastEntered[1] = nsent
-        /\ Near(cmd.tot + cmd.ex, tgt)
-        /\ Near(cmd.okp + cmd.fp + cmd.ex, tgt)
+        /\ Near(cmd.tot + cmd.ex, tgt) \/ cmd.lost
+        /\ Near(cmd.okp + cmd.fp + cmd.ex, tgt) \/ cmd.lost
 \* whenever something is in progress, one of the internal steps or an API answer is possible
 NotStuck ==
     PPQuiescent \/ sys # SysOfComp \/ chan # <<>> \/ rq # <<>>
@@ -253,6 +279,8 @@ NotStuck ==
 \* liveness (PPFairSpec): the system comes to rest, and by FinalCommandedIsTarget with the right command
 EventuallyQuiescent == <>[]PPQuiescent
 
+\* the deviation exists only in recorded executions, never in the model
+NoDeviationInModel == Mode # "trace" => (~cur.lost /\ ~cmd.lost)
 PPTypeOK == /\ cur.k = 0 => cur = NoCur
             /\ \A j \in DOMAIN rq : rq[j].type \in {"Success", "PartialFailure"}
 =============================================================================
